@@ -716,8 +716,10 @@ impl W {
         for t in 0..8usize {
             let (rt, barrier) = (rt.clone(), barrier.clone());
             hs.push(std::thread::spawn(move || -> Result<(), String> {
-                let mut pkg = host::compile(&rt, SRC)?;
+                let pkg = host::compile(&rt, SRC);
+                // every thread reaches the barrier, whatever happened to its compilation
                 barrier.wait();
+                let mut pkg = pkg?;
                 macro_rules! ask {
                     ($name:literal, $t:ty) => {
                         pkg.get_function::<fn($t) -> $t>($name).map(|_| ()).map_err(|e| format!("thread {t}: get_function::<fn({0}) -> {0}>({1:?}) was refused although that is the function's signature: {e}", stringify!($t), $name))
